@@ -216,7 +216,11 @@ def _worker(args):
     out = []
     for i in idxs:
         seed = run_seed(mod.PROP, tier, i, base)
-        case = mod.generate(seed, tier)
+        try:
+            case = mod.generate(seed, tier)
+        except Exception as e:
+            return {"harness_error": "generator: " + "".join(traceback.format_exception(type(e), e, e.__traceback__)),
+                    "index": i, "seed": seed}
         case["property"] = mod.PROP
         case["run_seed"] = seed
         case["index"] = i
